@@ -11,6 +11,8 @@ mod text;
 mod codec;
 mod engine;
 mod client;
+#[cfg(feature = "threaded-websockets")]
+mod ws;
 
 use std::panic::{catch_unwind, AssertUnwindSafe};
 
@@ -119,6 +121,8 @@ impl Session {
             v if v.starts_with("alias.") => codec::cmd_alias(&mut self.alias, v, head),
             v if v.starts_with("eng.") => self.engine.dispatch(v, head, payload),
             v if v.starts_with("cli.") => self.client.dispatch(v, head, payload),
+            #[cfg(feature = "threaded-websockets")]
+            "ws.read" => ws::cmd_ws_read(head),
             _ => Err(format!("unknown verb {}", verb)),
         }
     }
